@@ -63,9 +63,15 @@ class _NameTransformerMiddleware(BlockMiddleware, abc.ABC):
     def transform_entry(self, entry: Entry, *args, **kwargs) -> Block:
         field: Field
         try:
-            for field in entry.fields:
-                if field.key in self.name_fields:
-                    field.value = self._transform_field_value(field.value)
+            # Transform all name fields before changing any of them, such that
+            #   an invalid name leaves the entry untouched.
+            transformed = [
+                (field, self._transform_field_value(field.value))
+                for field in entry.fields
+                if field.key in self.name_fields
+            ]
+            for field, value in transformed:
+                field.value = value
             return entry
         except InvalidNameError as e:
             return MiddlewareErrorBlock(entry, e)
